@@ -16,6 +16,7 @@ import (
 	"go/types"
 	"math/big"
 	"net/url"
+	"os"
 	"regexp"
 	"sort"
 	"strconv"
@@ -295,6 +296,9 @@ type result struct {
 	env          map[ssa.Value]aval
 	pin          map[ssa.Value]aval
 	nonconverged bool
+	// versionedConst: for a value defined inside an unrolled loop, whether it was a
+	// constant in every iteration copy that ran (the joined value in env may be ⊤)
+	versionedConst map[ssa.Value]bool
 }
 
 // val returns the abstract value of v at the fixpoint (pins first).
@@ -349,14 +353,14 @@ type analyzer struct {
 	callModel      func(c *ssa.CallCommon, args []aval) (aval, bool) // optional rule-specific summaries
 	noInline       map[*ssa.Function]bool
 	stack          []*ssa.Function
-	allowRecursion bool                                    // bounded by maxDepth (structural recursion over a finite chain)
-	dynModel       func(fv aval, args []aval) (aval, bool) // calls of a function value that is not a known function
+	allowRecursion bool                                             // bounded by maxDepth (structural recursion over a finite chain)
+	dynModel       func(fv aval, args []aval) (aval, bool)          // calls of a function value that is not a known function
 	fnModel        func(sc *ssa.Function, args []aval) (aval, bool) // summaries by resolved callee (static, or a known function value)
-	cellValue      func(*ssa.Alloc) (aval, bool)           // current content of a non-escaping local cell of the activation being analysed
-	globalMaps     map[string]map[string]aval              // constant package-level maps with string keys ("pkg.name" -> key -> value)
-	snapshots      bool                                    // returned pointers to fresh allocations carry a snapshot of the pointee (ptrOf)
-	regex          map[*ssa.Global]string                  // package-level regexps with a constant pattern (load gives "regexp:<pattern>")
-	unroll         int                                     // iterations of an innermost loop kept apart (trace partitioning); the last one summarises the rest
+	cellValue      func(*ssa.Alloc) (aval, bool)                    // current content of a non-escaping local cell of the activation being analysed
+	globalMaps     map[string]map[string]aval                       // constant package-level maps with string keys ("pkg.name" -> key -> value)
+	snapshots      bool                                             // returned pointers to fresh allocations carry a snapshot of the pointee (ptrOf)
+	regex          map[*ssa.Global]string                           // package-level regexps with a constant pattern (load gives "regexp:<pattern>")
+	unroll         int                                              // iterations of an innermost loop kept apart (trace partitioning); the last one summarises the rest
 }
 
 func newAnalyzer() *analyzer {
@@ -519,6 +523,7 @@ func (an *analyzer) runOnce(fn *ssa.Function, params []aval, free []aval, depth 
 	envV := map[verKey]aval{}               // values defined inside an unrolled loop, per version
 	execBV := map[[2]int]bool{{0, 0}: true} // (block, version)
 	execEV := map[[4]int]bool{}             // (from, fromVersion, to, toVersion)
+	exitV := map[[2]int]bool{}              // (loop header, version): an edge leaving the loop from that version is executable
 	var curB *ssa.BasicBlock
 	curK := 0
 	defLoop := func(v ssa.Value) *uloop {
@@ -579,11 +584,12 @@ func (an *analyzer) runOnce(fn *ssa.Function, params []aval, free []aval, depth 
 				}
 				return bot
 			}
-			// used after the loop: any iteration that ran may have produced it
+			// used after the loop: control left the loop from some iteration k, in which
+			// the definition (it dominates the exit) was last executed
 			db := v.(ssa.Instruction).Block().Index
 			j := bot
 			for k := 0; k <= K; k++ {
-				if execBV[[2]int{db, k}] {
+				if execBV[[2]int{db, k}] && exitV[[2]int{L.header, k}] {
 					j = join(j, envV[verKey{v, k}])
 				}
 			}
@@ -645,6 +651,10 @@ func (an *analyzer) runOnce(fn *ssa.Function, params []aval, free []aval, depth 
 			}
 			execEdge[[2]int{from, to}] = true
 			res.execBlock[to] = true
+			if L := loops[from]; L != nil && loops[to] != L && !exitV[[2]int{L.header, curK}] {
+				exitV[[2]int{L.header, curK}] = true
+				changed = true
+			}
 		}
 		for _, b := range fn.Blocks {
 			for ver := 0; ver <= versionsOf(b); ver++ {
@@ -988,7 +998,7 @@ func (an *analyzer) runOnce(fn *ssa.Function, params []aval, free []aval, depth 
 							}
 						case c.k == kBot:
 						default:
-							if L := loops[b.Index]; L != nil && ver < K {
+							if L := loops[b.Index]; L != nil && ver < K && dependsOnLoopPhi(x.Cond, L, fn, 0) {
 								if c, ok := cut[L.header]; !ok || c > ver {
 									cut[L.header] = ver
 									return nil, true
@@ -1049,13 +1059,59 @@ func (an *analyzer) runOnce(fn *ssa.Function, params []aval, free []aval, depth 
 		}
 	}
 	curB = nil
+	if os.Getenv("FPSA_TRACE") != "" {
+		for vk, a := range envV {
+			fmt.Fprintf(os.Stderr, "TRACE %s %s@%d = %s (cut %v)\n", fn.Name(), vk.v.Name(), vk.k, a, cut)
+		}
+	}
+	res.versionedConst = map[ssa.Value]bool{}
 	for vk, a := range envV {
 		if execBV[[2]int{vk.v.(ssa.Instruction).Block().Index, vk.k}] {
 			env[vk.v] = join(env[vk.v], a)
+			if _, seen := res.versionedConst[vk.v]; !seen {
+				res.versionedConst[vk.v] = true
+			}
+			if a.k != kConst {
+				res.versionedConst[vk.v] = false
+			}
 		}
 	}
 	res.env = env
 	return res, false
+}
+
+// dependsOnLoopPhi: v is computed by comparisons / arithmetic / conversions from
+// a phi of the loop's header (the trip count hangs on it); values obtained
+// through calls or loads do not count.
+func dependsOnLoopPhi(v ssa.Value, L *uloop, fn *ssa.Function, depth int) bool {
+	if depth > 6 {
+		return true
+	}
+	switch x := v.(type) {
+	case *ssa.Phi:
+		if x.Block().Index == L.header {
+			return true
+		}
+		if !L.body[x.Block().Index] {
+			return false
+		}
+		for _, e := range x.Edges {
+			if dependsOnLoopPhi(e, L, fn, depth+1) {
+				return true
+			}
+		}
+	case *ssa.BinOp:
+		return dependsOnLoopPhi(x.X, L, fn, depth+1) || dependsOnLoopPhi(x.Y, L, fn, depth+1)
+	case *ssa.UnOp:
+		if x.Op != token.MUL {
+			return dependsOnLoopPhi(x.X, L, fn, depth+1)
+		}
+	case *ssa.Convert:
+		return dependsOnLoopPhi(x.X, L, fn, depth+1)
+	case *ssa.ChangeType:
+		return dependsOnLoopPhi(x.X, L, fn, depth+1)
+	}
+	return false
 }
 
 // uloop: an innermost natural loop (header and body block indices).
